@@ -366,6 +366,7 @@ struct Shared {
     volatile double stamp;      // time the current case started
     volatile uint64_t eval, nontriv;
     volatile uint64_t cnt[NCOUNT];
+    volatile int phase;         // 0 = inside the library under test (default), 1 = inside the check's own oracle
 };
 
 struct Ctx {
@@ -376,6 +377,13 @@ struct Ctx {
     std::vector<std::string> *counter_names = nullptr;
     std::set<uint64_t> outcome_seen;
     int nsamples = 0;
+    // A driver whose oracle can be expensive brackets the oracle with oracle(true)/oracle(false): a case that
+    // exceeds the wall limit while the ORACLE is running is a case the check could not judge (counted), not a
+    // hang of the library.
+    void oracle(bool on)
+    {
+        sh->phase = on ? 1 : 0;
+    }
     void eval(uint64_t n = 1)
     {
         sh->eval += n;
@@ -485,6 +493,7 @@ inline std::string run_alone(const CaseSet &cs, long long i, double limit_s, Sha
         c.index = i;
         c.out = fopen(outpath.c_str(), "a");
         sh->cur = i;
+        sh->phase = 0;
         cs.body(i, c);
         fclose(c.out);
         _exit(0);
@@ -499,7 +508,7 @@ inline std::string run_alone(const CaseSet &cs, long long i, double limit_s, Sha
         if (now() - t > limit_s) {
             kill(p, SIGKILL);
             waitpid(p, &st, 0);
-            res = "hang";
+            res = sh->phase == 1 ? "oracle-timeout" : "hang";
             break;
         }
         usleep(2000);
@@ -591,6 +600,7 @@ inline void run_cases(CaseSet &cs)
                 c.index = i;
                 sh[w].stamp = now();
                 sh[w].cur = i;
+                sh[w].phase = 0;
                 cs.body(i, c);
                 sh[w].done++;
             }
@@ -645,7 +655,7 @@ inline void run_cases(CaseSet &cs)
                 long long at = sh[w].cur;
                 kill(ws[w].pid, SIGKILL);
                 waitpid(ws[w].pid, &st, 0);
-                suspects.push_back({at, "hang"});
+                suspects.push_back({at, sh[w].phase == 1 ? "oracle-timeout" : "hang"});
                 progressed = true;
                 ws[w].next = at + J;
                 if (ws[w].next >= cs.n) {
@@ -674,9 +684,23 @@ inline void run_cases(CaseSet &cs)
             std::string again = detail::run_alone(cs, s.first, cs.hang_s * 3, &sh[J], outpath(J), &summ);
             if (again.empty()) {
                 R.counters[cs.name + ":suspect_clean_when_alone"]++;
+                if (oc == "hang" || oc == "oracle-timeout") {
+                    // exceeded the wall limit inside a busy worker but completes, clean, when run alone with 3x
+                    // the limit: a timing artefact of the shared machine, not a reproducible behaviour. The case
+                    // HAS now been executed and judged (alone); count it and go on.
+                    R.counters[cs.name + ":slow_in_worker_clean_when_alone"]++;
+                    continue;
+                }
                 oc = "state-dependent-" + oc;
             } else
                 oc = again;
+            if (oc == "oracle-timeout") {
+                // the check's own oracle did not finish within 3x the limit: not judged, counted, never an alarm
+                R.counters[cs.name + ":oracle_timeout_not_judged"]++;
+                R.counters["cases_not_judged(oracle too slow)"]++;
+                fprintf(stderr, "[%s] not judged (oracle exceeded %.0f s): %s\n", cs.name.c_str(), cs.hang_s * 3, d.c_str());
+                continue;
+            }
             if (!summ.empty()) {
                 oc += " [" + summ + "]";
                 summarized = true;
